@@ -106,23 +106,38 @@ Theorem C15_ta_numbers_increase : forall validate, SigSound validate -> forall y
         snum (y_s y) < snum s' /\ rnum r = snum s' /\ In m (y_reqs y)).
 Proof. exact ta_numbers_increase. Qed.
 
-(** "An open signer request can always be completed by an honest exchange": the full statement
-    ([exchange_always_completes], a Definition in TaProofs.v) is REFUTED by the faithful model (finding
-    F15b: a second revocation of an already revoked key is admitted by the proxy and fails the whole
-    request at the signer; the nonce stays open). *)
-Theorem C15_exchange_always_completes_refuted : forall validate, SigSound validate ->
-  ~ exchange_always_completes validate.
-Proof. exact exchange_always_completes_refuted. Qed.
+(** An open signer request is always completed by one honest exchange (repaired tree, after F15b): for
+    every history of disciplined operation -- the signer only ever sees the proxy's current request and
+    its answer is handed back before it sees another one ([HExchange]); children call in at any time with
+    any admissible request, each key belonging to one child ([owner]); any response message whatsoever may
+    be handed to the proxy at any time ([HRespond], no forged signer signatures); fresh nonces. *)
+Theorem C15_exchange_always_completes : forall validate, SigSound validate -> forall owner y0 hs,
+  sys_init y0 -> p_children (y_p y0) = [] -> hops_ok validate owner y0 hs ->
+  let y := hop_run validate y0 hs in
+  forall n, p_open (y_p y) = Some n ->
+    exists req s' resp p', p_get_request (y_p y) = Some req
+      /\ s_process validate (y_s y) req None = Ok (s', resp)
+      /\ p_step validate (y_p y) (PResponse resp) = POk p' /\ p_open p' = None.
+Proof. exact exchange_always_completes. Qed.
 
-Theorem C15_wedged_no_new_request :
-  let y := sys_run validate_std wedge_y0 wedge_ops in
+(** Against an ARBITRARY environment the same statement ([exchange_completes_any_env], a Definition in
+    TaProofs.v: some response in flight is acceptable, or the signer answers the current request) is
+    REFUTED: the signer keeps no memory of nonces; when it answers two versions of one request and the
+    older answer is handed to the proxy, a revocation it has already carried out is asked for again and
+    fails for ever (witness [desync_ops]). *)
+Theorem C15_exchange_completes_any_env_refuted : forall validate, SigSound validate ->
+  ~ exchange_completes_any_env validate.
+Proof. exact exchange_completes_any_env_refuted. Qed.
+
+Theorem C15_desync_no_new_request :
+  let y := sys_run validate_std desync_y0 desync_ops in
   p_open (y_p y) = Some 3
   /\ s_process validate_std (y_s y) (mkMsg 3 1 true (current_requests (y_p y))) None = Err SUnknownKey
   /\ forall n, p_step validate_std (y_p y) (PMake n) = PErr EHasRequest.
-Proof. exact wedged_no_new_request. Qed.
+Proof. exact desync_no_new_request. Qed.
 
-(** The strongest true restriction: unless some open revocation names a key the signer holds no
-    certificate for ([Known_C15]), the exchange completes and closes the open request. *)
+(** One exchange, any state: unless some open revocation names a key the signer holds no certificate for
+    ([Known_C15]), the exchange completes and closes the open request. *)
 Theorem C15_exchange_completes_except_known : forall validate, SigSound validate -> forall p s n,
   p_open p = Some n ->
   (exists si, p_signer p = Some si /\ si_id si = s_id s) -> s_proxy s = p_id p ->
@@ -151,7 +166,8 @@ Print Assumptions C15_reqs_wf_step.
 Print Assumptions C15_exactly_one_response_delivered_once.
 Print Assumptions C15_no_spurious_response.
 Print Assumptions C15_ta_numbers_increase.
-Print Assumptions C15_exchange_always_completes_refuted.
-Print Assumptions C15_wedged_no_new_request.
+Print Assumptions C15_exchange_always_completes.
+Print Assumptions C15_exchange_completes_any_env_refuted.
+Print Assumptions C15_desync_no_new_request.
 Print Assumptions C15_exchange_completes_except_known.
 Print Assumptions C15_validate_std_sound.
